@@ -92,7 +92,12 @@ def same_udict(a, b):
 
 
 def md_variant(rng):
-    k = int(rng.integers(0, 5))
+    k = int(rng.integers(0, 6))
+    if k == 5:
+        # tensors that are views of a larger buffer the caller keeps filling (a loss history), inside a nested dict
+        buf = torch.zeros(8, dtype=torch.double)
+        buf[:3] = torch.tensor(rng.normal(size=3))
+        return {"history": {"loss": buf[:3], "all": buf}, "n": 3}
     if k == 0:
         return None
     if k == 1:
@@ -102,6 +107,23 @@ def md_variant(rng):
     if k == 3:
         return {"cfg": {"lr": 0.1, "sizes": [1, 2, 3], "tag": ("a", 2)}, "flag": True}
     return {"t": torch.tensor(rng.normal(size=(2, 3))), "v": torch.arange(4)}
+
+
+def md_objects(md, out=None):
+    """ids of every container / tensor object reachable from the caller's metadata (saving must leave the very objects in
+    place, not only equal values: the caller goes on updating them in place)"""
+    out = [] if out is None else out
+    if isinstance(md, dict):
+        out.append(id(md))
+        for v in md.values():
+            md_objects(v, out)
+    elif isinstance(md, (list, tuple)):
+        out.append(id(md))
+        for v in md:
+            md_objects(v, out)
+    elif isinstance(md, torch.Tensor):
+        out.append((id(md), md.data_ptr()))
+    return out
 
 
 def md_equal(a, b):
@@ -251,6 +273,7 @@ def history(case, ctx, rng, tmp):
             path = os.path.join(tmp, fname)
             md_before = copy.deepcopy(md)
             md_id = id(md)
+            md_objs = md_objects(md)
             before = snap(m)
             mon = monitors.DispatchMonitor()
             for nm, p_ in monitors.params_of(st).items():
@@ -271,6 +294,9 @@ def history(case, ctx, rng, tmp):
             if not same_params(before["params"], after["params"]) or not same_udict(before["udict"], after["udict"]):
                 ctx.violation("save-changed-model", "save changed the model", tags=tags, witness=wit)
             ctx.count("metadata_unchanged_checks")
+            if md_objects(md) != md_objs:
+                ctx.violation("save-changed-metadata", "save replaced objects inside the caller's metadata (nested containers / tensors are no longer "
+                              "the caller's own objects)", tags=dict(tags, added_keys="", replaced_objects=True), witness=wit)
             if id(md) != md_id or not md_equal(md, md_before):
                 extra = sorted(set(md or {}) - set(md_before or {}))
                 ctx.violation("save-changed-metadata", f"save modified the caller's metadata object (new keys: {extra})",
